@@ -160,6 +160,26 @@ def apply_tamper(W, name, rng):
         po.tx_out.script_pubkey = spk
         ps.tx_obj.tx_outs[1].script_pubkey = spk
         outs[1]["spk"]["m"] = m + 1
+    elif name in ("backdoor-script", "nslot-script"):
+        # the wallet's own change keys with honest derivations, a scriptPubKey that commits to the attached script - but the script
+        # is not the multisig template: a foreign key can spend it (OP_m OP_DROP <atk> OP_CHECKSIGVERIFY OP_0 OP_0 <keys> OP_n
+        # OP_CHECKMULTISIG), or the OP_n position carries another number
+        from buidl.script import P2SHScriptPubKey, P2WSHScriptPubKey, RedeemScript, WitnessScript
+        secs = sorted(W["named"](r, "%s/1/4" % base).sec() for r in roots)
+        if name == "backdoor-script":
+            cmds = [0x50 + m, 0x75, atk.traverse("m/0/0").pub.sec(), 0xAD, 0, 0] + secs + [0x50 + n, 174]
+        else:
+            cmds = [0x50 + m] + secs + [0x50 + (n - 1 if n > 1 else n + 1), 174]
+        if W["kind"] == "p2sh":
+            sc = RedeemScript(cmds)
+            spk = P2SHScriptPubKey(sc.hash160())
+        else:
+            sc = WitnessScript(cmds)
+            spk = P2WSHScriptPubKey(sc.sha256())
+        set_script(po, sc)
+        po.tx_out.script_pubkey = spk
+        ps.tx_obj.tx_outs[1].script_pubkey = spk
+        outs[1]["spk"]["shape"] = name.split("-")[0]
     elif name == "two-spends-one-address":
         # an honest batch that pays the same outside address twice: the sums must still hold
         dup = TxOut(ps.tx_obj.tx_outs[0].amount + 777, ps.tx_obj.tx_outs[0].script_pubkey)
@@ -257,7 +277,7 @@ def apply_tamper(W, name, rng):
     return outs, ok_inputs
 
 
-TAMPERS = ["none", "change-quorum-up", "two-spends-one-address", "input-stray-witness-script", "two-from-one-cosigner", "input-derivation-path-of-another-input", "swap-spk", "swap-spk-p2pkh", "swap-spk-p2wpkh", "swap-spk-p2sh", "swap-spk-p2wsh", "swap-spk-p2tr", "second-change-first", "second-change-middle", "foreign-script", "foreign-script-named", "one-cosigner", "wrong-path", "foreign-xfp", "change-quorum", "second-change",
+TAMPERS = ["none", "backdoor-script", "nslot-script", "change-quorum-up", "two-spends-one-address", "input-stray-witness-script", "two-from-one-cosigner", "input-derivation-path-of-another-input", "swap-spk", "swap-spk-p2pkh", "swap-spk-p2wpkh", "swap-spk-p2sh", "swap-spk-p2wsh", "swap-spk-p2tr", "second-change-first", "second-change-middle", "foreign-script", "foreign-script-named", "one-cosigner", "wrong-path", "foreign-xfp", "change-quorum", "second-change",
            "spend-as-change", "input-foreign-script", "input-wrong-derivation", "input-foreign-xfp", "input-altered-prev-tx", "input-quorum-mismatch"]
 
 
@@ -276,6 +296,8 @@ def one_job(args):
         if t[0] != "ok" or t[1] is None:
             continue
         outs_abs, ok_inputs = t[1]
+        for o_ in outs_abs:
+            o_["spk"].setdefault("shape", "plain")
         ps = W["psbt"]
         res = ("raise", "")
         if mode == "reparsed":
@@ -310,10 +332,10 @@ def run(ctx):
     if ctx.want("mc"):
         for kind in ("p2sh", "p2wsh"):
             for (nn, mm) in ([(3, 2)] if q else [(2, 1), (2, 2), (3, 2), (4, 3)]):
-                def cfg(rh, dc):
-                    path = "%s/rev_%s_%d%d_%s%s.cfg" % (ctx.tmp, kind, nn, mm, rh, dc.strip('"'))
+                def cfg(rh, dc, tpl="TRUE"):
+                    path = "%s/rev_%s_%d%d_%s%s%s.cfg" % (ctx.tmp, kind, nn, mm, rh, dc.strip('"'), tpl)
                     with open(path, "w") as f:
-                        f.write("SPECIFICATION Spec\nCONSTANTS\n  N = %d\n  M = %d\n  Kind = \"%s\"\n  CheckRedeemHash = %s\n  CheckDistinctCosigners = %s\nINVARIANT ChangeIsReal\nINVARIANT InconsistentRejected\nINVARIANT HonestSummarised\n" % (nn, mm, kind, rh, dc))
+                        f.write("SPECIFICATION Spec\nCONSTANTS\n  N = %d\n  M = %d\n  Kind = \"%s\"\n  CheckRedeemHash = %s\n  CheckTemplate = %s\n  CheckDistinctCosigners = %s\nINVARIANT ChangeIsReal\nINVARIANT InconsistentRejected\nINVARIANT HonestSummarised\n" % (nn, mm, kind, rh, tpl, dc))
                     return path
                 r0 = ctx.mc("psbt/Review.tla", cfg("FALSE" if kind == "p2sh" else "TRUE", '"none"'), workers=2)
                 if not r0.invariant:
@@ -322,6 +344,9 @@ def run(ctx):
                     r1 = ctx.mc("psbt/Review.tla", cfg("TRUE", '"quorum"'), workers=2)
                     if not r1.invariant:
                         raise Exception("vacuity: 'at least M distinct cosigners' was expected to violate ChangeIsReal (a cosigner holding two slots)")
+                r2 = ctx.mc("psbt/Review.tla", cfg("TRUE", '"all"', "FALSE"), workers=2)
+                if not r2.invariant:
+                    raise Exception("vacuity: a get_quorum that reads m and n off the ends of any script was expected to violate ChangeIsReal")
                 ctx.mc_expect_ok("psbt/Review.tla", cfg("TRUE", '"all"'), what="change detection vs RealChange", workers=2)
         ctx.exhaustive.append("Review: every PSBT reachable by <= 2 tamperings of the 10-entry catalogue, P2SH and P2WSH; unrepaired policy refuted, repaired policy satisfies ChangeIsReal")
     if not ctx.want("cases"):
